@@ -301,8 +301,8 @@ class C01(FamilyCfg):
 
 
 class C02(FamilyCfg):
-    lean = ["Props.C02idx", "Audit.C02idx", "Props.C02ref", "Audit.C02ref"]
-    audit = ["C02idx", "C02ref"]
+    lean = ["Props.C02idx", "Audit.C02idx", "Props.C02rules", "Audit.C02rules", "Props.C02ref", "Audit.C02ref"]
+    audit = ["C02idx", "C02rules", "C02ref"]
 
     def scripts(self, tier):
         out = []
@@ -674,8 +674,9 @@ class C12(CrossCfg):
         if w is not None:
             toks = w["toks"]
             refused = bool(toks) and toks[0].startswith("-")      # (a nil reply is not a refusal: GETSET on a missing key sets)
-            # a failing EXEC announces its array first (D12): the error is the last token written
-            failed_exec = bool(toks) and toks[0].startswith("*") and toks[-1].startswith("-") and w["args"] and w["args"][0].lower() == b"exec"
+            # a failing EXEC announces its array first; the failing command's error is one of its elements
+            failed_exec = (bool(toks) and toks[0].startswith("*") and any(t.startswith("-") for t in toks[1:])
+                           and w["args"] and w["args"][0].lower() == b"exec")
             if (refused or failed_exec) and w["pre"].strip() != w["post"].strip():
                 return ("violation", "a request answered with an error reply changed the tables (over the wire)")
             # replies that say "there was nothing to do" (unmet condition, missing key / element / pivot)
@@ -933,7 +934,11 @@ class C09(Cfg):
     def streams(self, tier, seed, search):
         n = 16
         t, l, p = (40, 12, 0) if tier == "thorough" else ((6, 10, 0) if search else (4, 10, 10))
-        return [dict(kind="crash", args=["-seed", seed * 1000 + 700 + i, "-traces", t, "-len", l, "-points", p]) for i in range(n)]
+        out = [dict(kind="crash", args=["-seed", seed * 1000 + 700 + i, "-traces", t, "-len", l, "-points", p]) for i in range(n)]
+        # ONE non-transactional call with 1100 arguments (more than any batching constant), the process dying around each
+        # of its last database calls: all of it or none of it
+        out.append(dict(kind="crash", args=["-seed", seed, "-wide", 1100]))
+        return out
 
     def counts(self, op, v):
         return "W" in v
@@ -1069,9 +1074,6 @@ def wire_known(w):
     k = set()
     if not w["args"]:
         return k
-    name = w["args"][0].lower()
-    if name == b"exec" and w["inMulti"]:
-        k.add("D12?")      # confirmed below only when the reply is short
     return k
 
 
@@ -1160,7 +1162,7 @@ class C14(WireCfg):
     lean = WireCfg.lean + ["Props.C14", "Audit.C14", "Props.C17", "Audit.C17"]
     audit = ["C14", "C17"]
     wire_streams = [("malformed", 6, 60, 100), ("pool", 6, 20, 200), ("multi", 4, 60, 100)]
-    listed = {"D12"}
+    listed = set()
     rule = ("every supported and unsupported command name x argument vectors of length 0..3 over a pool of hostile tokens (exhaustive for short vectors), "
             "random malformed vectors, the same inside MULTI/EXEC; the token sequence written for each request must be exactly one complete RESP value "
             "and the handler must not panic (a panic kills the real server); the connection state after the request must be the model's")
@@ -1196,10 +1198,7 @@ class C14(WireCfg):
             if panicked:
                 return ("violation", "the handler panicked (the real server would go down)")
             if not panicked and (values != 1 or incomplete):
-                short_exec = (w["args"] and w["args"][0].lower() == b"exec" and w["inMulti"]
-                              and w["toks"] and w["toks"][0].startswith("*"))
-                if not short_exec:
-                    return ("violation", f"the request was answered with {values} complete replies" + (" and an incomplete one" if incomplete else ""))
+                return ("violation", f"the request was answered with {values} complete replies" + (" and an incomplete one" if incomplete else ""))
         if v.get("M") == "0":
             return ("violation", "reply or connection state differs from the wire model")
         return None
@@ -1209,7 +1208,7 @@ class C15(WireCfg):
     lean = WireCfg.lean + ["Props.C15", "Audit.C15", "Props.C07", "Audit.C07"]
     audit = ["C15", "C07"]
     wire_streams = [("multiseq:", 16, 1051, 5), ("multiseq:-conns 2", 16, 172, 3), ("multi", 4, 60, 100)]
-    listed = {"D12"}
+    listed = set()
     rule = ("all 7^5 sequences over {MULTI, EXEC, DISCARD, succeeding write, write failing at run time, unparsable command, read} on one connection "
             "(exhaustive) and random MULTI blocks on one and two interleaved connections; judged by the Lean transcription of the handler chain and, "
             "independently, by a reference state machine (queued commands change nothing; EXEC announces the queue length; a failing queued command "
@@ -1274,7 +1273,9 @@ class C15(WireCfg):
                     values, incomplete, panicked = reply_shape(toks)
                     if toks and toks[0] != f"*{w['nq']}":
                         return ("violation", "EXEC did not announce one reply per queued command")
-                    if incomplete and not same:
+                    if incomplete or values != 1:
+                        return ("violation", "EXEC did not deliver one complete reply per queued command (the array it announced is incomplete)")
+                    if any(t.startswith("-") for t in toks[1:]) and not same:
                         return ("violation", "a queued command failed during EXEC but some of the block's effects were kept")
                     if w["post_state"][1:3] != ["0", "0"]:
                         return ("violation", "the connection is still in MULTI state after EXEC")
